@@ -412,6 +412,7 @@ pub fn run(rep: &Report) {
     bounded_sink_cases(rep, "C10");
     cli_same_result(rep);
     cli_same_source(rep);
+    write_error_kinds(rep);
     rep.set_exhaustive(true);
 }
 
@@ -565,6 +566,70 @@ fn cli_same_source(rep: &Report) {
         }
     });
     rep.extra("cli_same_source_runs", json!(jobs.len()));
+}
+
+/// Write failures of every kind a sink can report (WouldBlock, TimedOut, BrokenPipe, ConnectionReset, StorageFull-like Other,
+/// PermissionDenied) at each of the first six write calls, with a sink that accepts at most 30000 bytes per call: the
+/// operation returns an error (never Ok) and what the sink holds is a prefix of the complete output.
+fn write_error_kinds(rep: &Report) {
+    use rayon::prelude::*;
+    use std::io::{ErrorKind, Write};
+    let seed = rep.seed;
+    const CSZ: usize = 65536;
+    let tkey = derive32(seed, "c10-kinds-key");
+    let p = plaintext(seed ^ 0xb0b, CSZ + 5000);
+    let ct = r::write_chunks(&tkey, &r::PASS_MAGIC, &p, &[CSZ, 5000]);
+    let enc = Subject::TinyEnc { key: hx(&tkey), aad: hx(&r::PASS_MAGIC), cs: CSZ as u32 };
+    let dec = Subject::TinyDec { key: hx(&tkey), aad: hx(&r::PASS_MAGIC), cs: CSZ as u32 };
+    struct Sink {
+        out: Vec<u8>,
+        calls: usize,
+        fail_at: usize,
+        kind: ErrorKind,
+    }
+    impl Write for Sink {
+        fn write(&mut self, b: &[u8]) -> std::io::Result<usize> {
+            self.calls += 1;
+            if self.calls == self.fail_at {
+                return Err(std::io::Error::new(self.kind, "injected"));
+            }
+            let n = b.len().min(30_000);
+            self.out.extend_from_slice(&b[..n]);
+            Ok(n)
+        }
+        fn flush(&mut self) -> std::io::Result<()> {
+            Ok(())
+        }
+    }
+    let kinds = [ErrorKind::WouldBlock, ErrorKind::TimedOut, ErrorKind::BrokenPipe, ErrorKind::ConnectionReset, ErrorKind::Other, ErrorKind::PermissionDenied];
+    let mut jobs = vec![];
+    for (si, _) in [&enc, &dec].iter().enumerate() {
+        for k in kinds {
+            for at in 1..=6usize {
+                jobs.push((si, k, at));
+            }
+        }
+    }
+    jobs.par_iter().for_each(|&(si, kind, at)| {
+        rep.eval(1);
+        rep.nontrivial(format!("write-error-kind-{}-{:?}-{}", si, kind, at).as_bytes());
+        let (sub, input, full) = if si == 0 { (&enc, &p, &ct) } else { (&dec, &ct, &p) };
+        let mut sink = Sink { out: vec![], calls: 0, fail_at: at, kind };
+        let mut src: &[u8] = input;
+        let res = run_rw(sub, &mut src, &mut sink);
+        if sink.calls < at {
+            return; // the operation made fewer write calls than that
+        }
+        let case = json!({"kind":"write-kinds","subject":si,"error":format!("{:?}", kind),"at":at});
+        if res.is_ok() {
+            rep.violation("C10/write-error-kinds", case, format!("{} with a sink whose write call {} fails with {:?} (and which accepts at most 30000 bytes per call) returned Ok; the sink holds {} of {} bytes", if si == 0 { "chunk encryption" } else { "chunk decryption" }, at, kind, sink.out.len(), full.len()));
+        } else if let Res::Panic(m) = &res {
+            rep.violation("C10/write-error-kinds", case, format!("panic: {}", m));
+        } else if !full.starts_with(&sink.out) {
+            rep.violation("C10/write-error-kinds", case, format!("{} with a sink whose write call {} fails with {:?}: the {} bytes the sink holds are not a prefix of the complete output (bytes written twice?)", if si == 0 { "chunk encryption" } else { "chunk decryption" }, at, kind, sink.out.len()));
+        }
+    });
+    rep.extra("write_error_kind_cases", json!(jobs.len()));
 }
 
 fn cli_level(rep: &Report) {
@@ -798,6 +863,10 @@ fn cli_case(cmd: &Cmd, files: &[(String, Vec<u8>)]) -> Result<(), String> {
 pub fn replay(rep: &Report, case: &Value) {
     if case["kind"] == "bounded-sink" {
         bounded_sink_cases(rep, "C10");
+        return;
+    }
+    if case["kind"] == "write-kinds" {
+        write_error_kinds(rep);
         return;
     }
     if case["kind"] == "cli-same" {
